@@ -5,7 +5,7 @@ import json, os, sys
 import lib
 
 PID = "C17"
-THEOREMS = ["Properties_C17.v"]
+THEOREMS = ["Properties_C17.v", "Properties_C17_rename.v"]
 
 
 def gen_history(rng, maxops):
